@@ -91,6 +91,7 @@ theorem c05_other_sessions_shape :
       "index int",
       "verifiers []kyber.Point",
       "hkdfContext []byte",
+      "approved bool",
       "(embedded) *aggregator"] ∧
     Gen.VssFacts.genPub = [
       "0| func genPub(ctx context.Context, logger log.Logger, suite suites.Suite, id []byte, groupIds [][]byte, sessionID string) (out chan interface{}, secrc chan kyber.Scalar, errc chan error)",
